@@ -288,9 +288,7 @@ def product_game(prob, pred, reps=2):
 
 
 def ns_value_r1(prob, pred):
-    """Exact non-signalling value of an r = 1 game by linear programming (scipy HiGHS)."""
-    from scipy.optimize import linprog
-
+    """Exact non-signalling value of an r = 1 game by linear programming (GLPK simplex)."""
     _, _, na, nb, nx, ny = pred.shape
     n = na * nb * nx * ny
 
@@ -323,21 +321,47 @@ def ns_value_r1(prob, pred):
                 row[idx(a, b, 0, y)] -= 1
             rows.append(row)
             rhs.append(0.0)
-    res = linprog(c, A_eq=np.array(rows), b_eq=np.array(rhs), bounds=(0, None), method="highs")
-    if res.status != 0:
-        raise Inconclusive("oracle_lp_failed")
-    return -float(res.fun)
-
-
-def _solve(problem):
+    # GLPK (exact simplex, single-threaded).  scipy's HiGHS is avoided on purpose: it starts a thread pool in the calling
+    # process, which deadlocks forked shard processes if the parent has used it (replay tier).
     import cvxpy
 
+    p = cvxpy.Variable(n, nonneg=True)
+    problem = cvxpy.Problem(cvxpy.Minimize(c @ p), [np.array(rows) @ p == np.array(rhs)])
     try:
-        problem.solve(solver=cvxpy.CLARABEL)
+        problem.solve(solver=cvxpy.GLPK)
+    except Exception as e:  # noqa: BLE001
+        raise Inconclusive("oracle_lp_failed") from e
+    if problem.status != "optimal":
+        raise Inconclusive("oracle_lp_failed")
+    return -float(problem.value)
+
+
+def _solve(problem, strict=False):
+    """Solve with CLARABEL.  strict (used where the optimum is not re-certified in numpy): a CLARABEL result that is only
+    'optimal_inaccurate' must be confirmed to 1e-5 by SCS run to eps 1e-9, otherwise the case is inconclusive."""
+    import cvxpy
+
+    first = None
+    try:
+        problem.solve(solver=cvxpy.CLARABEL, max_threads=1)  # single thread: no rayon pool, fork-safe
+        if problem.status == "optimal" or (problem.status == "optimal_inaccurate" and not strict):
+            return float(problem.value)
+        if problem.status == "optimal_inaccurate":
+            first = float(problem.value)
+        elif problem.status not in ("optimal", "optimal_inaccurate"):
+            raise Inconclusive(f"oracle_status_{problem.status}")
+    except Inconclusive:
+        raise
+    except Exception:  # noqa: BLE001
+        pass
+    try:
+        problem.solve(solver=cvxpy.SCS, eps=1e-9, max_iters=200000)
     except Exception as e:  # noqa: BLE001
         raise Inconclusive("oracle_solver_failed") from e
-    if problem.status not in ("optimal", "optimal_inaccurate"):
+    if problem.status != "optimal" and not (problem.status == "optimal_inaccurate" and not strict):
         raise Inconclusive(f"oracle_status_{problem.status}")
+    if first is not None and abs(first - float(problem.value)) > 1e-5:
+        raise Inconclusive("oracle_imprecise")
     return float(problem.value)
 
 
@@ -373,7 +397,7 @@ def ns_value_sdp(prob, pred):
             obj += float(prob[x, y]) * cvxpy.real(cvxpy.trace(np.asarray(pred[:, :, a, b, x, y]).conj().T @ k[a, b, x, y]))
     if isinstance(obj, int):
         return 0.0
-    return _solve(cvxpy.Problem(cvxpy.Maximize(obj), cons))
+    return _solve(cvxpy.Problem(cvxpy.Maximize(obj), cons), strict=True)
 
 
 # ---------------------------------------------------------------------------------------------
